@@ -12,7 +12,18 @@ frame of an ImageIterator, interleaved with set / unset operations of the render
 at every level and with operations on the global native-animation limit (values around
 the sources' data sizes).  model/SettingsRenderTie.v [rcheck] compares the method each
 render actually used and whether the size warning was issued with SettingsRender.rtrace
-(model) and SettingsRender.spec_rtrace (the documented rule on the history alone)."""
+(model) and SettingsRender.spec_rtrace (the documented rule on the history alone).
+
+Set operations carry Python VALUES of the universe of model/SettingsVal.v ("val": None, strings
+incl. empty / padded / differently-cased / foreign names, ints, bools, floats incl. nan / inf,
+bytes, tuples, lists, other sized containers, other objects of either truth value): valid and
+INVALID ones of every kind for every setting at every level.  model/SettingsValTie.v [vcheck]
+compares, after every operation, the outcome (accepted / TypeError / ValueError /
+AttributeError) and what every class and instance reads with SettingsVal.vtrace (the argument
+checks and writes as the code performs them) and SettingsVal.vspec_trace (the documented
+meaning of each value; the documented resolution rule on the documented reading of the
+history, in which an invalid operation is no operation).  Operations given in the older integer
+coding ("v" + "pres") are translated to values first (legacy_val)."""
 from __future__ import annotations
 
 import json
@@ -20,12 +31,13 @@ import json
 import core
 
 LEVEL = "proof"
-EXTRA_TARGETS = ["model/SettingsTie.vo", "model/SettingsRenderTie.vo"]
+EXTRA_TARGETS = ["model/SettingsTie.vo", "model/SettingsRenderTie.vo", "model/SettingsValTie.vo"]
 KINDS = {
-    "rm": lambda root: f"(k_render_method {2 if root == 'kitty' else 3})",
-    "fs": lambda root: "k_forced_support",
-    "jq": lambda root: "k_jpeg_quality",
-    "rff": lambda root: "k_read_from_file",
+    "rm": lambda root: f"(SRm {2 if root == 'kitty' else 3})",
+    "fs": lambda root: "SFs",
+    "jq": lambda root: "SJq",
+    "rff": lambda root: "SRff",
+    "nam": lambda root: "SNam",
 }
 SETTINGS = {"kitty": ["rm", "fs"], "iterm2": ["rm", "fs", "jq", "rff", "nam"]}
 VALUES = {
@@ -37,15 +49,183 @@ VALUES = {
 }
 
 
+# ---------------------------------------------------------------- the universe of values
+
+
+def v_none():
+    return {"k": "none"}
+
+
+def v_str(x):
+    return {"k": "str", "s": x}
+
+
+def v_int(z):
+    return {"k": "int", "z": z}
+
+
+def v_bool(b):
+    return {"k": "bool", "b": bool(b)}
+
+
+def v_float(r):
+    return {"k": "float", "r": r}
+
+
+def v_bytes(x):
+    return {"k": "bytes", "s": x}
+
+
+def v_seq(kind, items):
+    return {"k": kind, "l": list(items)}
+
+
+def v_sized(t, n):
+    return {"k": "sized", "t": t, "n": n}
+
+
+def v_obj(w, t):
+    return {"k": "obj", "w": w, "t": bool(t)}
+
+
+# falsy values: of the wrong type for at least one setting each (False / 0 / None / "" are valid
+# or invalid depending on the setting; the Coq side decides)
+FALSY = [v_int(0), v_bool(False), v_float("0.0"), v_float("-0.0"), v_seq("tuple", []), v_seq("list", []),
+         v_sized("dict", 0), v_sized("set", 0), v_sized("frozenset", 0), v_sized("range", 0),
+         v_sized("bytearray", 0), v_bytes(""), v_obj("custom", False), v_obj("complex", False),
+         v_str(""), v_none()]
+TRUTHY_ODD = [v_bool(True), v_float("1.5"), v_float("5.0"), v_float("95.0"), v_float("1.0"), v_float("nan"),
+              v_float("inf"), v_float("-inf"), v_seq("tuple", [v_str("whole")]), v_seq("list", [v_str("lines")]),
+              v_seq("tuple", [v_none()]), v_seq("list", [v_int(0)]), v_sized("dict", 1), v_sized("set", 2),
+              v_sized("range", 3), v_sized("bytearray", 1), v_bytes("lines"), v_bytes("whole"),
+              v_obj("custom", True), v_obj("complex", True), v_obj("notimpl", True), v_obj("ellipsis", True),
+              v_obj("type", True)]
+STRINGS = [v_str(x) for x in (
+    " ", "None", "none", "null", "0", "1", "95", "False", "True", "lines", "LINES", "Lines", "lInEs", "whole",
+    "WHOLE", "wHoLe", "anim", "ANIM", "Anim", " lines", "lines ", "lines\n", "\tlines", "LINES ", "l ines",
+    "line", "liness", "lines\x00", "line\u017f", "L\u0130NES", "l\u0131nes", "\uff4c\uff49\uff4e\uff45\uff53",
+    "whole;", "lines,whole", "foo", "bar", "x")]
+INTS = [v_int(z) for z in (-10**12, -1000, -7, -1, 1, 2, 50, 94, 95, 96, 100, 123, 4096, 2097152, 10**12)]
+UNIVERSE = FALSY + TRUTHY_ODD + STRINGS + INTS
+# a valid, non-default value per setting (what a wrongly accepted / wrongly "unset" value disturbs)
+GOOD = {"rm": v_str("WHOLE"), "fs": v_bool(True), "jq": v_int(50), "rff": v_bool(False), "nam": v_int(4096)}
+
+
+def legacy_val(s, v, pres):
+    """The value the older integer coding of a set operation stands for (impl_c20.decode)."""
+    if s == "rm":
+        if 0 <= v <= 2:
+            m = ["lines", "whole", "anim"][v]
+            return v_str([m, m.upper(), m.capitalize()][pres % 3])
+        return {7: v_str("foo"), 8: v_int(123), 9: v_str("")}.get(v, v_str("bar"))
+    if s in ("fs", "rff"):
+        return {0: v_bool(False), 1: v_bool(True)}.get(v, [v_int(2), v_str("x"), v_none()][pres % 3])
+    if s == "jq":
+        return v_str("x") if v == 1000 else (v_float("5.0") if v == 1001 else v_int(v))
+    if s == "nam":
+        return v_str("x") if v == -1 else v_int(v)
+    raise ValueError(s)
+
+
+def normalise(case):
+    """Every set operation gets its value ("val"); the integer coding stays for reference."""
+    ops = []
+    for o in case["ops"]:
+        if o["op"] in ("cs", "is") and "val" not in o:
+            o = dict(o, val=legacy_val(o["s"], o["v"], o.get("pres", 0)))
+        ops.append(o)
+    return dict(case, ops=ops)
+
+
+def val_term(d):
+    k = d["k"]
+    if k == "none":
+        return "VNone"
+    if k == "str":
+        return f"(VStr {core.coq_list([ord(ch) for ch in d['s']], core.z)})"
+    if k == "int":
+        return f"(VInt {core.z(d['z'])})"
+    if k == "bool":
+        return f"(VBool {'true' if d['b'] else 'false'})"
+    if k == "float":
+        import fractions
+        f = float(d["r"])
+        if f != f:
+            return "(VFloat FNaN)"
+        if f in (float("inf"), float("-inf")):
+            return f"(VFloat (FInf {'true' if f < 0 else 'false'}))"
+        q = fractions.Fraction(f)
+        return f"(VFloat (FFin {core.z(q.numerator)} {q.denominator}%positive))"
+    if k == "bytes":
+        return f"(VBytes {core.coq_list([ord(ch) for ch in d['s']], core.z)})"
+    if k in ("tuple", "list"):
+        return f"({'VTuple' if k == 'tuple' else 'VList'} {core.coq_list(d['l'], val_term)})"
+    if k == "sized":
+        return f"(VSized {d['n']})"
+    if k == "obj":
+        return f"(VObj {'true' if d['t'] else 'false'})"
+    raise ValueError(d)
+
+
+def val_repr(d):
+    k = d["k"]
+    if k == "none":
+        return "None"
+    if k in ("str",):
+        return repr(d["s"])
+    if k == "int":
+        return str(d["z"])
+    if k == "bool":
+        return str(bool(d["b"]))
+    if k == "float":
+        return f"float({d['r']!r})"
+    if k == "bytes":
+        return "b" + repr(d["s"])
+    if k == "tuple":
+        return "(" + "".join(val_repr(x) + "," for x in d["l"]) + ")"
+    if k == "list":
+        return "[" + ", ".join(val_repr(x) for x in d["l"]) + "]"
+    if k == "sized":
+        return f"{d['t']}(<{d['n']} elements>)"
+    return {"custom": "<truthy object>" if d["t"] else "<falsy object>", "complex": "1j" if d["t"] else "0j",
+            "notimpl": "NotImplemented", "ellipsis": "...", "type": "int"}[d["w"]]
+
+
+def value_corpus():
+    """Every value of UNIVERSE handed to every setting at every level of both styles, each time
+    right after the target (or, for a class-only setting written through an instance, its class)
+    got a valid non-default value of its own -- so that a wrongly accepted value, or one taken for
+    "unset", changes what somebody reads."""
+    out = []
+    for root in ("kitty", "iterm2"):
+        for s in SETTINGS[root]:
+            for lv in ("cs", "is"):
+                for part, vals in enumerate((FALSY + TRUTHY_ODD, STRINGS + INTS)):
+                    ops = []
+                    for j, v in enumerate(vals):
+                        inst_level_ok = s in ("rm", "jq", "rff")
+                        if lv == "is" and inst_level_ok:
+                            ops.append({"s": s, "op": "is", "t": 0, "val": GOOD[s], "pres": j})
+                        else:
+                            ops.append({"s": s, "op": "cs", "t": 1, "val": GOOD[s], "pres": j})
+                        ops.append({"s": s, "op": lv, "t": 1 if lv == "cs" else 0, "val": v, "pres": j})
+                    ops.append({"s": s, "op": "cu" if lv == "cs" else "iu", "t": 1 if lv == "cs" else 0, "pres": part})
+                    out.append({"root": root, "par": [0, 0, 1], "icls": [2, 1], "src": ["p", "p"], "ops": ops})
+    return out
+
+
 SRC_KINDS = ["p", "g", "n", "q", "s"]  # static PIL, animated GIF file, animated PNG file, PIL image
 #                                          opened from the GIF file, static PNG file
 _SRC = {}
+_PROBE = {}
 
 
 def src_info():
     """{kind: {"animated": 0/1, "size": bytes}} of the driver's on-disk sources (deterministic)."""
     if not _SRC:
-        _SRC.update(core.run_impl("impl_c20.py", [{"probe": 1}])[0]["src"])
+        probe = core.run_impl("impl_c20.py", [{"probe": 1}])[0]
+        _SRC.update(probe["src"])
+        _PROBE.update(probe)
     return _SRC
 
 
@@ -102,6 +282,9 @@ def gen_case(rng, size):
             o["v"] = rng.choice(namv if s == "nam" else VALUES[s])
             if focus == "rd" and s == "rm" and rng.random() < 0.5:
                 o["v"] = 1 if root == "kitty" else rng.choice([1, 2, 2])
+            elif rng.random() < 0.3:
+                # any value of the universe: falsy ones, odd truthy ones, strings, integers
+                o["val"] = rng.choice(rng.choice([FALSY, FALSY, TRUTHY_ODD, STRINGS, INTS]))
         ops.append(o)
     case = {"root": root, "par": par, "icls": icls, "src": kinds, "ops": ops}
     if nc > 1 and rng.random() < 0.35:
@@ -178,30 +361,25 @@ CORPUS = [
 ]
 
 
-def op_term(o):
+def vop_term(o):
+    """One set / unset operation as a SettingsVal.vop."""
+    lv = "LCls" if o["op"] in ("cs", "cu") else "LInst"
     t = o["t"]
-    if o["op"] == "cs":
-        return f"ClsSet {t} {core.z(o['v'])}"
-    if o["op"] == "cu":
-        return f"ClsUnset {t}"
-    if o["op"] == "is":
-        return f"InstSet {t} {core.z(o['v'])}"
-    return f"InstUnset {t}"
+    if o["op"] in ("cs", "is"):
+        return f"VSet {lv} {t} {val_term(o['val'])}"
+    if o["s"] == "rm" and o.get("pres", 0) % 2 == 0:
+        return f"VSet {lv} {t} VNone"  # set_render_method(None); the other spelling: no argument
+    return f"VDel {lv} {t}"
 
 
-def gop_term(o):
-    t = o["t"]
-    return {"cs": f"GSet {t} {core.z(o.get('v', 0))}", "cu": f"GUnset {t}",
-            "is": f"GInstSet {t} {core.z(o.get('v', 0))}", "iu": f"GInstUnset {t}"}[o["op"]]
-
-
-def rop_term(o):
+def rop_term(o, n):
+    """The documented reading of one operation of a history with renders, as a list of rops."""
     if o["s"] == "rm":
-        return f"RMeth ({op_term(o)})"
+        return f"map RMeth (doc_op (SRm {n}) ({vop_term(o)}))"
     if o["s"] == "nam":
-        return f"RLim ({gop_term(o)})"
+        return f"map RLim (doc_gop ({vop_term(o)}))"
     m = "None" if o.get("m") is None else f"(Some {core.z(o['m'])})"
-    return f"RRender {o['t']} {m} {'true' if o.get('f') else 'false'}"
+    return f"[RRender {o['t']} {m} {'true' if o.get('f') else 'false'}]"
 
 
 def zll(rows):
@@ -212,51 +390,50 @@ def evaluate(cases, tag="c20", only=None):
     """Run cases on impl and in Coq. Returns (per_case_status, errors, impl_results).
     per_case_status[i] = list of (setting, code) with non-zero code, + harness-level flags.
     [only]: restrict the Coq-side judgement to these labels (used while shrinking)."""
-    impl = core.run_impl_parallel("impl_c20.py", cases)
+    cases = [normalise(c) for c in cases]
+    # spread neighbouring cases (the corpus comes first and is heavier) over the parallel drivers
+    P = max(1, min(core.NCPU, len(cases)))
+    order = sorted(range(len(cases)), key=lambda i: (i % P, i))
+    shuffled = core.run_impl_parallel("impl_c20.py", [cases[i] for i in order])
+    impl = [None] * len(cases)
+    for i, r in zip(order, shuffled):
+        impl[i] = r
     terms, owner = [], []
-    gterms, gowner = [], []
     rterms, rowner = [], []
     for i, (c, r) in enumerate(zip(cases, impl)):
         if any(o["s"] == "rd" for o in c["ops"]) and (only is None or "render-method-used" in only):
             rops = [o for o in c["ops"] if o["s"] in ("rm", "nam", "rd")]
+            nm = 2 if c["root"] == "kitty" else 3
             rterms.append(
-                f"{{| r_n := {2 if c['root'] == 'kitty' else 3}%Z; r_par := {core.coq_list(c['par'])}; "
+                f"{{| r_n := {nm}%Z; r_par := {core.coq_list(c['par'])}; "
                 f"r_icls := {core.coq_list(c['icls'])}; "
                 f"r_anim := {core.coq_list(r['srcs'], lambda x: 'true' if x[0] else 'false')}; "
                 f"r_size := {core.coq_list(r['srcs'], lambda x: core.z(x[1]))}; "
-                f"r_ops := {core.coq_list(rops, rop_term)}; r_obs := {zll([x[:2] for x in r['renders']])} |}}")
+                f"r_ops := concat {core.coq_list(rops, lambda o: rop_term(o, nm))}; r_obs := {zll([x[:2] for x in r['renders']])} |}}")
             rowner.append(i)
         for s in SETTINGS[c["root"]]:
             ops = [o for o in c["ops"] if o["s"] == s]
             if not ops or (only is not None and s not in only):
                 continue
             obs = r["obs"][s]
-            if s == "nam":
-                gterms.append(f"{{| g_ops := {core.coq_list(ops, gop_term)}; g_obs := {zll(obs)} |}}")
-                gowner.append((i, s))
-            else:
-                terms.append(
-                    f"{{| t_kind := {KINDS[s](c['root'])}; t_par := {core.coq_list(c['par'])}; "
-                    f"t_icls := {core.coq_list(c['icls'])}; t_ops := {core.coq_list(ops, op_term)}; "
-                    f"t_obs := {zll(obs)} |}}")
-                owner.append((i, s))
-    header = "From Coq Require Import List ZArith.\nImport ListNotations.\nFrom TI Require Import model.Settings model.SettingsTie.\nOpen Scope nat_scope.\n"
+            terms.append(
+                f"{{| v_set := {KINDS[s](c['root'])}; v_par := {core.coq_list(c['par'])}; "
+                f"v_icls := {core.coq_list(c['icls'])}; v_ops := {core.coq_list(ops, vop_term)}; "
+                f"v_obs := {zll(obs)} |}}")
+            owner.append((i, s))
+    header = ("From Coq Require Import List ZArith.\nImport ListNotations.\n"
+              "From TI Require Import model.Settings model.SettingsTie model.SettingsVal model.SettingsValTie.\n"
+              "Open Scope nat_scope.\n")
     status = [[] for _ in cases]
     errors = []
     if terms:
-        bad, errs = core.coq_shards(tag, header, terms, "tcase", "bad cases")
+        bad, errs = core.coq_shards(tag, header, terms, "vcase", "vbad cases")
         errors += errs
         for idx, code in bad:
             i, s = owner[idx]
             status[i].append((s, code))
-    if gterms:
-        bad, errs = core.coq_shards(tag + "g", header, gterms, "gcase", "gbad cases")
-        errors += errs
-        for idx, code in bad:
-            i, s = gowner[idx]
-            status[i].append((s, code))
     if rterms:
-        rheader = header.replace("model.SettingsTie.", "model.SettingsTie model.SettingsRender model.SettingsRenderTie.")
+        rheader = header.replace("model.SettingsValTie.", "model.SettingsValTie model.SettingsRender model.SettingsRenderTie.")
         bad, errs = core.coq_shards(tag + "r", rheader, rterms, "rcase", "rbad cases")
         errors += errs
         for idx, code in bad:
@@ -273,7 +450,7 @@ def evaluate(cases, tag="c20", only=None):
             status[i].append(("per-call-override", 2))
         if not all(x == 1 for x in f["instantiation_ok"]):
             status[i].append(("forced-support-instantiation", 2))
-    return status, errors, impl
+    return status, errors, impl, cases
 
 
 def fails_spec(st):
@@ -297,7 +474,7 @@ def shrink(case, only=None):
             c["ops"] = cur["ops"][:k] + cur["ops"][k + size:]
             if c["ops"]:
                 cands.append(c)
-        status, errors, _ = evaluate(cands, tag="c20s", only=only)
+        status, errors, _, cands = evaluate(cands, tag="c20s", only=only)
         nxt = next((c for c, st in zip(cands, status) if fails_spec(st)), None)
         if errors:
             break
@@ -317,7 +494,9 @@ def describe(case):
             how = "iterator-frame" if o.get("f") else "render"
             return f"inst{o['t']}.{how}" + ("" if o.get("m") is None else "+" + "LWA"[o["m"]])
         who = ("C%d" if o["op"] in ("cs", "cu") else "inst%d") % o["t"]
-        return f"{who}.{o['s']}" + (f"={o['v']}" if "v" in o else ".unset")
+        if o["op"] in ("cs", "is"):
+            return f"{who}.{o['s']}={val_repr(o['val'] if 'val' in o else legacy_val(o['s'], o['v'], o.get('pres', 0)))}"
+        return f"{who}.{o['s']}.unset"
     return (f"root={case['root']} parents={case['par']} inst_classes={case['icls']} "
             f"inst_sources={case.get('src')} ops=[{', '.join(map(one, case['ops']))}]")
 
@@ -328,13 +507,18 @@ def run(ctx):
         cases = [ctx.replay["replay"]["case"]]
     else:
         n = 300 if ctx.quick else 4000
-        corpus = list(CORPUS) + render_corpus()
+        corpus = list(CORPUS) + render_corpus() + value_corpus()
         cases = corpus + [gen_case(rng, 12 if i % 3 else 30) for i in range(n)]
-    status, errors, impl = evaluate(cases)
+    src_info()
+    lower_bad = list(_PROBE.get("lower_bad", []))
+    status, errors, impl, cases = evaluate(cases)
+    if lower_bad:
+        errors.append("str.lower() of the running Python maps code points outside A-Z onto letters of the "
+                      f"render-method names (model/SettingsVal.v lower_cp assumes none): {lower_bad[:10]}")
     mismatches, failures = [], []
     ncorpus = 0 if ctx.replay else len(corpus)
     hist = {"root": {}, "classes": {}, "ops_len": {}, "op_kinds": {}, "settings": {}, "rejected_ops": 0, "accepted_ops": 0,
-            "inst_sources": {}, "renders": {}, "render_requests": {}}
+            "inst_sources": {}, "renders": {}, "render_requests": {}, "set_values": {}, "outcomes": {}}
     distinct = set()
     for c, r in zip(cases, impl):
         hist["root"][c["root"]] = hist["root"].get(c["root"], 0) + 1
@@ -354,8 +538,21 @@ def run(ctx):
                    f"{'frame' if o.get('f') else 'whole'}")
             hist["render_requests"][key] = hist["render_requests"].get(key, 0) + 1
         for s, rows in r["obs"].items():
-            for row in rows:
+            sops = [o for o in c["ops"] if o["s"] == s]
+            for o, row in zip(sops, rows):
                 hist["rejected_ops" if row[0] else "accepted_ops"] += 1
+                res = {0: "accepted", 1: "TypeError", 2: "ValueError", 3: "AttributeError"}.get(row[0], "other")
+                if o["op"] in ("cs", "is"):
+                    d = o["val"]
+                    falsy = (d["k"] == "none" or d.get("s") == "" or d.get("z") == 0 or d.get("b") is False
+                             or d.get("l") == [] or d.get("n") == 0 or d.get("t") is False
+                             or d.get("r") in ("0.0", "-0.0"))
+                    key = f"{s}/{'class' if o['op'] == 'cs' else 'instance'}/{d['k']}{'(falsy)' if falsy else ''}"
+                    hist["set_values"][key] = hist["set_values"].get(key, 0) + 1
+                    key = f"{s}/{'class' if o['op'] == 'cs' else 'instance'}:{res}"
+                else:
+                    key = f"{s}/{'class' if o['op'] == 'cu' else 'instance'}.unset:{res}"
+                hist["outcomes"][key] = hist["outcomes"].get(key, 0) + 1
         # non-trivial: >= 2 classes, >= 3 ops and some class-level set followed by an unset
         kinds = [o["op"] for o in c["ops"]]
         if len(c["par"]) >= 2 and len(c["ops"]) >= 3 and "cs" in kinds and ("cu" in kinds or "iu" in kinds):
@@ -366,14 +563,15 @@ def run(ctx):
         if fails_spec(st):
             if len(failures) < 2 and not ctx.replay:
                 small = shrink(cases[i], {s for s, c in st if c >= 2})
-                st2, _, impl2 = evaluate([small], tag="c20r")
+                st2, _, impl2, _ = evaluate([small], tag="c20r")
+                small = normalise(small)
             else:
                 small, st2, impl2 = cases[i], [st], [impl[i]]
             what = f"settings history violates the documented resolution rule ({[s for s, c in st2[0] if c >= 2]}): {describe(small)}"
             failures.append({
                 "signature": core.sig({"root": small["root"], "par": small["par"], "icls": small["icls"],
                                        "src": small.get("src"),
-                                       "ops": [(o["s"], o["op"], o["t"], o.get("v"), o.get("m"), o.get("f"))
+                                       "ops": [(o["s"], o["op"], o["t"], o.get("val"), o.get("m"), o.get("f"))
                                                for o in small["ops"]]}),
                 "what": what,
                 "replay": {"case": small, "observed": impl2[0], "status": st2[0]},
@@ -381,12 +579,19 @@ def run(ctx):
         else:
             mismatches.append({"case": cases[i], "status": st, "observed": impl[i]["obs"]})
     return {
-        "corr_name": "Settings.trace (model) == real set/unset history on KittyImage/ITerm2Image subclass forests",
+        "corr_name": "SettingsVal.vtrace (model) == real set/unset history, with values of the whole universe, on "
+                     "KittyImage/ITerm2Image subclass forests",
         "evaluations": len(cases),
         "distinct_nontrivial": len(distinct),
         "rule": "corpus + random class forests (1-6 classes: chains, stars, random trees; 0-3 instances) with 1-30 "
                 "set/unset/invalid-set operations over render method, forced support, jpeg quality, read-from-file, "
-                "native-anim limit (values around the data sizes of the animated sources), interleaved with RENDERS of "
+                "native-anim limit (values around the data sizes of the animated sources); the values set are drawn "
+                f"from a universe of {len(UNIVERSE)} Python values ({len(FALSY)} falsy ones: 0, False, 0.0, -0.0, (), [], "
+                "{}, set(), frozenset(), range(0), bytearray(), b'', a falsy object, 0j, '', None; odd truthy ones: "
+                "floats incl. nan/inf, containers, bytes, NotImplemented, ..., a type; strings: names in every case, "
+                "padded / truncated / foreign / look-alike names; integers around every range end) and the corpus hands "
+                "EVERY value of the universe to EVERY setting at EVERY level of both styles; the outcome is compared "
+                "by kind (accepted / TypeError / ValueError / AttributeError); interleaved with RENDERS of "
                 "instances sourced from animated GIF/APNG files, PIL images opened from them, static files and static "
                 "PIL images (str / format with or without a per-call method, one frame of an ImageIterator): the method "
                 "whose output format was produced (LINES / WHOLE / ANIM = the whole animated file in one transmission) "
@@ -402,7 +607,10 @@ def run(ctx):
         "errors": errors,
         "assumptions": [
             "Python attribute resolution on single-inheritance class chains is modelled by cls_lookup (instance dict, then class chain)",
-            "values are identified up to the case of a render-method name (the code applies .lower())",
+            "values are identified up to the case of a render-method name (the code applies .lower()) and up to "
+            "Python equality of bool and int (True == 1): a bool is accepted where an int is documented",
+            "str.lower() maps no code point outside A-Z onto letters of the render-method names (checked over all "
+            "code points of the running Python by the driver's probe at every run)",
             "a source's 'animated' flag and data size are facts about the file (PIL), inputs of the model",
         ],
         "trusted": ["impl driver reads _render_method (no public getter) and confirms it by the framing of real renders",
